@@ -239,6 +239,9 @@ def replay_steps(rec, info, f, t, y, rows, feats, rtol, atol, lipschitz, constan
             unit = 256 * eps * info["stages"] * (1 + ymax) * (1 + lipschitz * abs(float(h))) ** 2
         else:
             unit = 40 * (atol + rtol * ymax) + 256 * eps * (1 + ymax)
+        # the step actually taken is known from the recorded times only to an ulp of t: that much of the local slope is not a difference of the steps
+        slope = float(np.max(np.abs(np.asarray(dY, dtype=np.float64)))) / max(abs(float(h)), 1e-300)
+        unit = unit + 4 * eps * max(abs(float(t[k])), abs(float(t[k + 1]))) * slope
         err = float(np.max(np.abs((np.asarray(y[k], dtype=np.longdouble) + np.asarray(dY, dtype=np.longdouble)) - np.asarray(y[k + 1], dtype=np.longdouble))))
         rec.worst(clause + "_over_unit", err / unit)
         if err > unit and bad < 2:
